@@ -6,8 +6,9 @@ sys.path.insert(0, ROOT)
 ids = [json.loads(l)["id"] for l in open(os.path.join(ROOT, "properties.jsonl"))]
 checks, na, served = [], [], []
 pending = json.load(open(os.path.join(ROOT, "tools", "pending.json"))) if os.path.exists(os.path.join(ROOT, "tools", "pending.json")) else {}
+claimed = set(open(os.path.join(ROOT, "tools", "claimed.txt")).read().split())
 for pid in ids:
-    if not os.path.exists(os.path.join(ROOT, "props", pid + ".py")):
+    if pid not in claimed or not os.path.exists(os.path.join(ROOT, "props", pid + ".py")):
         na.append({"property_id": pid, "reason": pending.get(pid, "check not built yet (the technique applies; see DESIGN.md section 5)")})
         continue
     c = importlib.import_module("props." + pid).CHECK
